@@ -12,6 +12,8 @@ abstract interpreter see one spelling of constructs that mean the same:
   g = (<generator>) ; <statement using g once>   ->   generator substituted into the statement
   return all(C for v in IT) / any(..) / not any(..) / next((E for v in IT if C), D)  ->  the explicit loop with early returns
   reversed(range(a, b))                 ->  range(b - 1, a - 1, -1)
+  in a test position:  B if A else False -> A and B ;  True if A else B -> A or B ;  False if A else B -> not A and B ; A if A2 else True ...
+  a, b = x, y                           ->  a = x ; b = y            (when y does not mention a)
   f(x, p2=y)                            ->  f(x, y)                  (second pass, needs all signatures: keywords of calls to functions
                                                                       defined in the tree with one signature become positional)
 
@@ -46,8 +48,43 @@ class Normalizer(ast.NodeTransformer):
             return ast.copy_location(ast.Assign(targets=[node.target], value=ast.copy_location(ast.BinOp(left=load, op=node.op, right=node.value), node)), node)
         return node
 
+    @staticmethod
+    def _bool_ternary(e):
+        """conditional expression with a boolean constant arm, as the equivalent and/or (valid where only truthiness is observed)"""
+        if not isinstance(e, ast.IfExp):
+            return e
+        a, b, c = e.test, e.body, e.orelse
+        cb = b.value if isinstance(b, ast.Constant) and isinstance(b.value, bool) else None
+        cc = c.value if isinstance(c, ast.Constant) and isinstance(c.value, bool) else None
+        neg = lambda x: ast.copy_location(ast.UnaryOp(op=ast.Not(), operand=x), x)
+        mk = lambda op, xs: ast.copy_location(ast.BoolOp(op=op, values=xs), e)
+        if cc is False:
+            return mk(ast.And(), [a, b])          # b if a else False
+        if cb is True:
+            return mk(ast.Or(), [a, c])           # True if a else c
+        if cb is False:
+            return mk(ast.And(), [neg(a), c])     # False if a else c
+        if cc is True:
+            return mk(ast.Or(), [neg(a), b])      # b if a else True
+        return e
+
+    def _test(self, e):
+        """canonicalise an expression in a position where only its truth value is observed"""
+        e = self._bool_ternary(e)
+        if isinstance(e, ast.BoolOp):
+            e.values = [self._test(v) for v in e.values]
+        elif isinstance(e, ast.UnaryOp) and isinstance(e.op, ast.Not):
+            e.operand = self._test(e.operand)
+        return e
+
+    def visit_While(self, node):
+        self.generic_visit(node)
+        node.test = self._test(node.test)
+        return node
+
     def visit_IfExp(self, node):
         self.generic_visit(node)
+        node.test = self._test(node.test)
         t, flipped = _strip_not(node.test)
         if flipped:
             return ast.copy_location(ast.IfExp(test=t, body=node.orelse, orelse=node.body), node)
@@ -55,6 +92,7 @@ class Normalizer(ast.NodeTransformer):
 
     def visit_If(self, node):
         self.generic_visit(node)
+        node.test = self._test(node.test)
         node = self._swap(node)
         return self._to_ifexp(node)
 
@@ -173,6 +211,25 @@ class Normalizer(ast.NodeTransformer):
     def _block(self, stmts):
         kept = [st for st in stmts if not self._is_diagnostic(st)]
         stmts = kept if kept else [ast.copy_location(ast.Pass(), stmts[0])] if stmts else stmts
+        # a, b = x, y  ->  a = x ; b = y
+        split = []
+        for st in stmts:
+            if (
+                isinstance(st, ast.Assign) and len(st.targets) == 1 and isinstance(st.targets[0], ast.Tuple) and isinstance(st.value, ast.Tuple)
+                and len(st.targets[0].elts) == len(st.value.elts) and all(isinstance(t, ast.Name) for t in st.targets[0].elts)
+            ):
+                names = [t.id for t in st.targets[0].elts]
+                ok = True
+                for i, v in enumerate(st.value.elts):
+                    used = {n.id for n in ast.walk(v) if isinstance(n, ast.Name)}
+                    if used & set(names[:i]):
+                        ok = False
+                if ok:
+                    for t, v in zip(st.targets[0].elts, st.value.elts):
+                        split.append(ast.copy_location(ast.Assign(targets=[t], value=v), st))
+                    continue
+            split.append(st)
+        stmts = split
         # a generator bound to a local and consumed once by the next statement
         merged = []
         for st in stmts:
